@@ -6,7 +6,7 @@ from amaranth import Cat
 
 from amaranth_soc import gpio
 
-from vlib import sim
+from vlib import sim, gens
 from vlib.csrmodel import MuxModel, Reg, hval, flatten, conforming_stimulus
 from vlib.common import Violation
 
@@ -42,10 +42,12 @@ def _spec(draw, tier):
 
 
 def strategy(tier):
-    return _spec(tier)
+    return gens.with_pre(_spec(tier))
 
 
 def check(spec, stats):
+    if sim.set_pre(spec):
+        stats.label("pre_elaborated")
     pins, dw, stages = spec["pins"], spec["dw"], spec["stages"]
     # address space needed: Mode, SetClr: ceil(2p/dw) rounded to pow2; Input, Output: ceil(p/dw) rounded
     def span(w):
